@@ -224,6 +224,21 @@ inductive Op where
   | closeAll                   -- a client's cleanup (Logging.closeLogs, Handler.Cleanup): Delete every key it remembers, oldest first
 deriving DecidableEq, Repr
 
+/-- how the set-up of a log (`BaseLog.provisionCommon`, logging.go) goes on after its writer was taken
+    from the `writers` pool by `Logging.openWriter` -/
+inductive LogOutcome where
+  | good            -- level parses, encoder loads: the log is ready
+  | badLevel        -- `parseLevel` rejects the level string
+  | encoderFails    -- the encoder module fails to load / provision
+deriving DecidableEq, Repr
+
+/-- **the log set-up glue as a client of the pool.**  Whatever happens after `openWriter` returned, the
+    set-up neither gives the reference back (the `Logging` remembers the key in `writerKeys` and releases it
+    in `closeLogs`, whether or not the log came up) nor touches the writer: towards the pool every outcome
+    is the one acquisition `LoadOrNew(key, open the writer)`.  (A set-up that closes "its" writer on failure
+    would be a destructor call outside the pool — the harness reports it as `pooled-value-closed-by-client`.) -/
+def logSetupOp (k : Nat) (_ : LogOutcome) : Op := .ln k true
+
 inductive PC where
   | idle
   | ctor (e : Nat)
